@@ -11,7 +11,8 @@ CONSTANTS MaxSteps,      \* history length bound
           Embs,          \* embeddings to check
           NoExclusion,   \* TRUE: do not apply the DESIGN-9 exclusion (must then FAIL: vacuity guard)
           NoLastRule,    \* TRUE: drop "last in its chunk" from legality (must then FAIL)
-          SampleMod      \* emit only histories whose fingerprint falls in 1 of SampleMod classes at full length (1 = all)
+          SampleMod,     \* emit only histories whose fingerprint falls in 1 of SampleMod classes at full length (1 = all)
+          SamplePhase    \* which class (seed-dependent)
 VARIABLES D0, H
 vars == <<D0, H>>
 
@@ -24,7 +25,8 @@ NewNames == {Nm(99), Nm(100), Nm(101)}       \* c d e
 
 F0(c, t) == Fld(Nm(c), t, IF t.k = "opt" THEN "Option" ELSE "plain", FALSE, <<>>)
 Inits ==
-  {StructT(<<F0(97, t)>>, <<>>) : t \in InitTypes}
+  {StructT(<<>>, <<>>)}          \* no fields at all: chunk 0 stays empty (its size 0 reads as the "unknown" step code)
+  \cup {StructT(<<F0(97, t)>>, <<>>) : t \in InitTypes}
   \cup {StructT(<<F0(97, t1), F0(98, t2)>>, <<>>) : t1 \in InitTypes, t2 \in InitTypes}
   \cup {StructT(<<F0(97, t1), [F0(98, t2) EXCEPT !.tr = TRUE, !.dv = TrDefault(t2)]>>, <<>>) : t1 \in {U8, OptT(U8)}, t2 \in {U8, OptT(U8)}}
 
@@ -84,7 +86,7 @@ Case(w, r, emb, v) ==
 CasesFor(p) == UNION { {Case(p[1], p[2], emb, v) : v \in StructVals(Ver(D0, H, p[1]))} :
                        emb \in {e \in Embs : ~Skip(p[1], p[2], e)} }
 Cases == UNION {CasesFor(p) : p \in Pairs}
-Selected == SampleMod = 1 \/ Len(H) < MaxSteps \/ Len(ToString(<<D0, H>>)) % SampleMod = 0
+Selected == SampleMod = 1 \/ Len(H) < MaxSteps \/ Len(ToString(<<D0, H>>)) % SampleMod = SamplePhase % SampleMod
 EmitCases ==
   ~Selected \/
   PrintT(<<"REPLAY", ToJson([vers |-> [k \in 1..(Len(H) + 1) |-> Ver(D0, H, k - 1)], cases |-> Cases])>>)
